@@ -422,7 +422,8 @@ func (h *lcH) finish(finalStop bool) string {
 		lcDump()
 	}
 	st := int(h.ds.GetState())
-	wr := b2i(h.ds.WritingIsActive())
+	wrA, wrW := h.writingLeft()
+	wr := b2i(wrA != 0 || wrW != 0)
 	res := h.resHeld()
 	tr := dastard.VerifTrace(0)
 	dastard.VerifPointsOff()
@@ -542,7 +543,8 @@ func c10Gen(r *Rng, tier string, idx int) (string, func() string) {
 		return fmt.Sprintf("src %s opens 0 sched reuse", kind), func() string { return lcReuse(kind, idx) }
 	default:
 		when := r.Intn(2)
-		return fmt.Sprintf("src loop opens 0 sched selfW when %d", when), func() string { return lcSelfW(idx, when) }
+		pause := r.Intn(2)
+		return fmt.Sprintf("src loop opens 0 sched selfW when %d pause %d", when, pause), func() string { return lcSelfW(idx, when, pause == 1) }
 	}
 }
 
@@ -874,8 +876,20 @@ func lcHoldStop(kind string, idx, at, holdMs int) string {
 	return h.finish(true)
 }
 
-// lcSelfW: the scripted source ends by itself (error block) while writing is active; then Stop is called.
-func lcSelfW(idx, when int) string {
+// writingLeft reports what is left of the run's writing on the real object, not through WritingIsActive (the
+// method under test): the Active flag of the reported writing state and the channels with a writer installed.
+func (h *lcH) writingLeft() (active, writers int) {
+	active = b2i(h.ds.ComputeWritingState().Active)
+	if o, ok := h.ds.(interface{ VerifWritersInstalled() int }); ok {
+		writers = o.VerifWritersInstalled()
+	}
+	return
+}
+
+// lcSelfW: the scripted source ends by itself (error block) while writing is active — or active and PAUSED —; then
+// Stop is called.  Once the run is Inactive nothing of its writing may be left (state inactive, no writer installed
+// on any channel), and a restart of the same object must be clean.
+func lcSelfW(idx, when int, pause bool) string {
 	h := lcNew("loop", idx)
 	dastard.VerifPointsOn()
 	s := h.spawnStart()
@@ -885,16 +899,31 @@ func lcSelfW(idx, when int) string {
 	h.feedWG.Wait()
 	w := h.writingOn(fmt.Sprintf("%d_s", idx))
 	w.wait(2 * time.Second)
+	if pause {
+		h.spawnRequest(func() error { return h.ds.WriteControl(&dastard.WriteControlConfig{Request: "PAUSE"}) }).wait(2 * time.Second)
+	}
 	if when == 0 {
 		// the source ends first, Stop afterwards
 		h.feedBlocks(0, true)
 		lcWaitTrace(2*time.Second, func([]dastard.VerifEvent) bool { return h.ds.GetState() == dastard.Inactive })
+		a, wr := h.writingLeft()
+		dastard.VerifNote(fmt.Sprintf("obs.selfw.%d.%d.%d", int(h.ds.GetState()), a, wr))
 		k := h.spawnStop()
 		k.wait(2 * time.Second)
 	} else {
 		// Stop first: the normal path cleans up
 		k := h.spawnStop()
 		k.wait(2 * time.Second)
+		a, wr := h.writingLeft()
+		dastard.VerifNote(fmt.Sprintf("obs.selfw.%d.%d.%d", int(h.ds.GetState()), a, wr))
+	}
+	// restart of the same object: starts with no writing inherited
+	if h.ds.GetState() == dastard.Inactive {
+		s2 := h.spawnStart()
+		if s2.wait(3*time.Second) && s2.ret == 0 {
+			a, wr := h.writingLeft()
+			dastard.VerifNote(fmt.Sprintf("obs.selfw.%d.%d.%d", 0, a, wr))
+		}
 	}
 	return h.finish(true)
 }
